@@ -9,12 +9,14 @@ open Mime Mime.Json Mime.Gen.Json
 
 /-- **regenerated obligation**: every field of the pooled parser state is re-initialised
     by `reset`, except the recursion cap, which is installed once by the pool constructor
-    and never assigned again (`capWrites = []`) -/
+    and never assigned again (`capWrites = []`: no assignment to the field and no store through a
+    `*parserState` pointer), and no parser state is built outside the pool constructor
+    (`parserStateLiterals = 1`): every pooled state carries the cap, whatever its history -/
 theorem reset_clears_all :
     parserFields.all (fun f => (resetAssigns.map (·.1)).contains f || f == "maxRecursion") = true ∧
     resetAssigns = [("ib", "0"), ("currPath", "p.currPath[0:0]"), ("firstToken", "TokInvalid"),
                     ("querySatisfied", "false"), ("complete", "false")] ∧
-    capWrites = [] := by decide
+    capWrites = [] ∧ parserStateLiterals = 1 ∧ poolCtor = [("maxRecursion", "maxRecursion")] := by decide
 
 /-- **pool independence**: whatever state a pooled parser was left in by earlier
     detections (any counters, any path stack, any flags), `Parse` gives the same result
